@@ -7,4 +7,6 @@ git -C /repo apply "$PWD/$d/patch.diff" || { echo "PATCH DOES NOT APPLY"; exit 3
 ./check "$2" --tier "${3:-quick}" 2>&1 | grep -v "WARNING conda" | tail -4
 rc=${PIPESTATUS[0]}
 git -C /repo checkout -- .
+# the evidence file now describes a run against the patched tree: restore the committed one
+git checkout -q -- "evidence/$2.json" 2>/dev/null
 echo "seed=$1 prop=$2 rc=$rc"
